@@ -914,7 +914,41 @@ impl Text {
         }
     }
 
+    /// 70 000 calls in one thread of one process (a counter that wraps, a table that fills up, a cache that
+    /// starts evicting): the answers at calls 1, 2^8, 2^16 and beyond must be the first call's answer.
+    fn c14_many_calls(&self, w: &mut Worker) {
+        let srcs = ["start S\nstruct S\nterminal T {}\n", "start S\nstruct S($A\n", "start E\nenum E { A($X E) B }\nterminal K { $X: u8 }\n"];
+        let first: Vec<u64> = srcs.iter().map(|s| digest_of(&kside::generate(s, u64::MAX).0)).collect();
+        let checkpoints = [2u64, 255, 256, 257, 4096, 65_535, 65_536, 65_537, 70_000];
+        let mut n = 1u64;
+        while n <= 70_000 {
+            n += 1;
+            let k = (n % 3) as usize;
+            let out = kside::generate(srcs[k], u64::MAX).0;
+            if checkpoints.contains(&n) || n % 9973 == 0 {
+                // (all three sources at a checkpoint)
+                for (j, s) in srcs.iter().enumerate() {
+                    let d = if j == k { digest_of(&out) } else { digest_of(&kside::generate(s, u64::MAX).0) };
+                    w.eval();
+                    if d != first[j] {
+                        w.violation(
+                            &format!("nondeterministic-result:after-many-calls:{}", out.class()),
+                            &format!("call number {n} on this thread answers differently from the first call"),
+                            json!({"text": s, "call_number": n}),
+                        );
+                        return;
+                    }
+                }
+            }
+        }
+        w.count("many-calls-histories");
+        w.max("max-calls-in-one-thread", n);
+    }
+
     fn c14_batch(&self, w: &mut Worker, idx: u64) {
+        if idx == 3 {
+            self.c14_many_calls(w);
+        }
         let mut inputs: Vec<(String, String)> = vec![];
         for sub in 0..BATCH {
             let n = idx * BATCH + sub;
@@ -1339,7 +1373,7 @@ impl Engine for Text {
         match prop {
             "C12" => "inputs: generated grammars whose struct / enum / terminal declarations carry 0-4 outer attributes each; attribute texts are random over an alphabet of everything but LF (nested brackets of the three kinds, //, #, $, quotes, TAB, CR, U+00A0, U+2028, U+FEFF, 2/3/4-byte characters at any offset incl. directly before the closing bracket, empty #[]), each with a unique marker, followed in the source by nothing / spaces / comments / newlines. One evaluation = one declaration: the lines immediately above `pub struct|enum <Name>` in the emitted text must be byte-for-byte the declaration's attributes in order, no attribute line may precede them, and every marked attribute must occur in the whole emitted text exactly as often as in the source (15 % of the non-empty lists repeat one attribute, directly after itself or elsewhere). Attribute texts also nest brackets 100-70 000 deep (6 %) and draw 6 % of their atoms from a dictionary harvested at run time from kiki's own sources (format placeholders like {node_enum_name}, identifiers). Distinct non-trivial = distinct attribute texts longer than 4 bytes.".into(),
             "C13" => "inputs: generated grammars whose terminals have random payload types from the Kiki type grammar (unit, paths of 1-6 segments, generics nested to depth 8 with 1-4 arguments, unit as argument) written with random whitespace / comments between their tokens. One evaluation = one emitted module: at every use site (terminal enum variant, every struct / variant field of that terminal, node enum variant, try_into_* return type) the emitted type, re-tokenised, must equal the declared token sequence. Distinct non-trivial = distinct type expressions.".into(),
-            "C14" => "inputs: sources of every class (accepted grammars incl. the repository examples, conflicting grammars, every validation error, parse errors, lexical errors). One evaluation = one call of generate; every input is run 8 times in one process on 8 fresh threads (fresh SipHash keys per HashMap; run k passes the text as a slice that starts k bytes into a buffer, i.e. at every alignment modulo 8; odd runs go through the batch of 16 inputs backwards and one run calls every input twice in a row, so a dependence on earlier calls is visible), 4 more times on 4 threads running at the same time (each starting at another offset of the batch, one of them also calling get_grammar_hash: state shared between concurrent calls) and once in each of 2 further processes (each with a different build-script-like process environment: OPT_LEVEL, PROFILE, TARGET, LANG ... and every variable kiki's sources read); the bytes of Ok results / the {:?} of errors (positions and attached automaton included) must be identical. A canary HashSet iterated in every run records how many distinct hash orders were actually sampled. Distinct non-trivial = distinct inputs that reach the automaton construction (Ok or TableConflict).".into(),
+            "C14" => "inputs: sources of every class (accepted grammars incl. the repository examples, conflicting grammars, every validation error, parse errors, lexical errors). One evaluation = one call of generate; every input is run 8 times in one process on 8 fresh threads (fresh SipHash keys per HashMap; run k passes the text as a slice that starts k bytes into a buffer, i.e. at every alignment modulo 8; odd runs go through the batch of 16 inputs backwards and one run calls every input twice in a row, so a dependence on earlier calls is visible), 4 more times on 4 threads running at the same time (each starting at another offset of the batch, one of them also calling get_grammar_hash: state shared between concurrent calls) and once in each of 2 further processes (each with a different build-script-like process environment: OPT_LEVEL, PROFILE, TARGET, LANG ... and every variable kiki's sources read); the bytes of Ok results / the {:?} of errors (positions and attached automaton included) must be identical. One history of 70 000 calls on one thread compares the answers at calls 2^8, 2^12, 2^16 ... with the first. A canary HashSet iterated in every run records how many distinct hash orders were actually sampled. Distinct non-trivial = distinct inputs that reach the automaton construction (Ok or TableConflict).".into(),
             "C15" => "inputs: (a) accepted sources with / without trailing newline, CRLF, non-ASCII, leading comment up to 60 KB, and ONE source of 2^29 + 12 345 bytes (the bit length of the hashed message exceeds 32 bits): the emitted text must start with a // block containing `// @sha256 ` + the SHA-256 of the source computed by an independent implementation, get_grammar_hash must return exactly that digest, and the build-script freshness test (stored digest == digest of current file) must accept the same text and reject a text differing in one byte; (b) header-like texts assembled from fragments (//, `// @sha256 `, repeated prefixes, CR, CRLF, blank and non-comment lines, Unicode): get_grammar_hash vs the rule in the property statement. One evaluation = one text. Distinct non-trivial = distinct texts.".into(),
             _ => "inputs: sources of every class (accepted, conflicting, every validation error, parse errors, lexical errors - there only the text before the offending lexeme is re-laid-out), each re-joined up to 6 times from the reference lexer's tokens with random separators: nothing where legal, any Unicode whitespace, LF / CRLF, // comments with arbitrary content, comment at the end without newline, everything on one line; every 211th source additionally gets one HUGE run (10^4 .. 10^6 comment lines, blank lines, spaces ...) inserted in one gap, run in a child process; validity of the re-layout (same kinds and texts) is re-checked with the reference lexer. One evaluation = one (source, re-layout) pair: Ok outputs must be identical outside the `// @sha256` line, errors identical after mapping every byte position through the token-start map. Distinct non-trivial = distinct sources with at least one re-layout.".into(),
         }
